@@ -65,6 +65,29 @@ func events(in []byte, before ...string) (evs []lex.Ev, msg string) {
 			msg = fmt.Sprintf("NextLexeme panicked: %v", r)
 		}
 	}()
+	// "other-check:<text>" / "other-len:<text>": Check / Len of ANOTHER document (mostly a broken one)
+	// - nothing that happens to another document may change what this one delivers; the ones at
+	// the head of the history run before this document is created
+	other := func(op string) bool {
+		for _, pre := range []string{"other-check:", "other-len:"} {
+			if strings.HasPrefix(op, pre) {
+				o := libjson.New("other", []byte(strings.TrimPrefix(op, pre)))
+				func() {
+					defer func() { _ = recover() }()
+					if pre == "other-check:" {
+						_ = o.Check()
+					} else {
+						_, _ = o.Len()
+					}
+				}()
+				return true
+			}
+		}
+		return false
+	}
+	for len(before) > 0 && other(before[0]) {
+		before = before[1:]
+	}
 	d := libjson.New("doc", in)
 	conv := func(typ string, begin, end int, value func() []byte) (lex.Ev, string) {
 		e := lex.Ev{Type: typ, Begin: begin, End: end}
@@ -79,6 +102,7 @@ func events(in []byte, before ...string) (evs []lex.Ev, msg string) {
 	// and after them are, together, the event sequence of the text
 	for _, op := range before {
 		switch {
+		case other(op):
 		case op == "len":
 			if _, err := d.Len(); err != nil {
 				return nil, fmt.Sprintf("Len returned %v for a valid JSON text", err)
@@ -191,8 +215,13 @@ func TestDocEvents(t *testing.T) {
 		// reads interleaved with Len and Check on the same Document
 		if rapid.IntRange(0, 1).Draw(t, "reuse") == 0 {
 			var before []string
+			broken := []string{`{"ok": tru`, `["first", "secon`, `[1, -]`, `{"a": 1.}`, `[1`, `"abc`, `[nul`, `{"k": -`, `12e`, ``, `[1, 2]`}
 			for i, n := 0, rapid.IntRange(1, 5).Draw(t, "nops"); i < n; i++ {
-				switch rapid.IntRange(0, 3).Draw(t, "op") {
+				switch rapid.IntRange(0, 5).Draw(t, "op") {
+				case 4:
+					before = append(before, "other-check:"+rapid.SampledFrom(broken).Draw(t, "brokenCheck"))
+				case 5:
+					before = append(before, "other-len:"+rapid.SampledFrom(broken).Draw(t, "brokenLen"))
 				case 0:
 					before = append(before, "len")
 				case 1:
